@@ -74,12 +74,19 @@ def Viol.str : Viol → String
   | .dangling => "dangling" | .refcount => "refcount" | .ownerMissing => "owner-missing"
   | .ownerExtra => "owner-extra" | .ownerStale => "owner-stale" | .unreachable => "unreachable"
 
+/-- insertion sort (structural, so that the kernel can evaluate `verdict`) -/
+def insertSorted (le : Nat → Nat → Bool) (a : Nat) : List Nat → List Nat
+  | [] => [a]
+  | b :: bs => if le a b then a :: b :: bs else b :: insertSorted le a bs
+
+def sortBy (le : Nat → Nat → Bool) (l : List Nat) : List Nat := l.foldr (insertSorted le) []
+
 /-- live addresses in id order: realm, then NewTime -/
 def idOrder (s : State) : List Nat :=
-  (liveAddrs s).mergeSort fun a b =>
+  sortBy (fun a b =>
     let x := s.get a
     let y := s.get b
-    x.pkg < y.pkg || (x.pkg == y.pkg && x.time ≤ y.time)
+    x.pkg < y.pkg || (x.pkg == y.pkg && x.time ≤ y.time)) (liveAddrs s)
 
 def objViol (s : State) (a : Nat) : Option Viol :=
   let o := s.get a
